@@ -1,2 +1,18 @@
 import FpgoVerif.Props.C17
 /-! `#print axioms` for every property theorem of C17; parsed by `check`. -/
+#print axioms FpgoVerif.C17.C17_url
+#print axioms FpgoVerif.C17.C17_url_string
+#print axioms FpgoVerif.C17.C17_template_wellformed
+#print axioms FpgoVerif.C17.C17_url_side_condition_needed
+#print axioms FpgoVerif.C17.C17_pinned_url_refuted
+#print axioms FpgoVerif.C17.C17_table
+#print axioms FpgoVerif.C17.C17_method
+#print axioms FpgoVerif.C17.C17_generic
+#print axioms FpgoVerif.C17.C17_method_model
+#print axioms FpgoVerif.C17.C17_lazy
+#print axioms FpgoVerif.C17.C17_call_sends_nothing
+#print axioms FpgoVerif.C17.C17_once
+#print axioms FpgoVerif.C17.C17_errors
+#print axioms FpgoVerif.C17.C17_decode_errors
+#print axioms FpgoVerif.C17.C17_pinned_decoder_panics
+#print axioms FpgoVerif.C17.C17_shared_header_refuted
